@@ -78,6 +78,9 @@ fn key_transcript<V: Fv>(ctx: &Ctx, key_idx: usize, m_sigs: usize, rep: &mut Rep
     let r = par_for(m_sigs / chunk, ncpu(), |c, rep| {
         let mut local = Acc { norm2: vec![], y_rows0: vec![], y_rows1: vec![], y_gs: vec![], bins: vec![], dir1: vec![0.0; 2 * n], dir2: vec![0.0; 2 * n], row1: vec![0.0; 2 * n], row2: vec![0.0; 2 * n], over_bound: 0 };
         for k in 0..chunk {
+            if crate::signer::sign_is_stuck() {
+                return;
+            }
             let idx = (c * chunk + k) as u64;
             let msg = idx.to_le_bytes();
             let out = sign_honest::<V>(&msg, &sk, ctx.seed, &format!("c10-{}-{}-{}", V::NAME, key_idx, idx));
@@ -147,6 +150,10 @@ fn key_transcript<V: Fv>(ctx: &Ctx, key_idx: usize, m_sigs: usize, rep: &mut Rep
     rep.merge(r);
     let a = acc.into_inner().unwrap();
     let m = a.norm2.len();
+    if crate::signer::sign_is_stuck() {
+        rep.violation("transcript:sign-makes-no-progress", format!("{}: sign consumed the randomness of 1000 honest attempts without returning (also reported by C01)", V::NAME), json!({"variant": V::NAME, "key_seed": hex(&seed)}));
+        return;
+    }
     if m < 200 {
         rep.inconclusive(format!("{}: only {} signatures in the transcript", V::NAME, m));
         return;
